@@ -518,8 +518,34 @@ def rule_doread_result(ctx: Ctx) -> RuleResult:
     return rr
 
 
+def rule_zmq_wait(ctx: Ctx) -> RuleResult:
+    """ZMQEventLoop waits for the next alarm with Poller.poll(milliseconds).  poll() truncates a float to whole
+    milliseconds - the timeout must be rounded *up* - and returns immediately when no socket is registered, so that
+    case needs an explicit sleep: otherwise alarms run before they are due."""
+    from ..rules.exc import ExcEngine
+
+    p = ctx.p
+    rr = RuleResult("BOUND", "C13.13", "ZMQEventLoop rounds the poll timeout up and sleeps when the poller is empty", floor=1)
+    lp = p.func(f"{LOOPS['zmq']}._loop")
+    cfg = cfg_of(lp)
+    polls = nodes_where(cfg, lambda x: isinstance(x, ast.Call) and isinstance(x.func, ast.Attribute) and x.func.attr == "poll" and x.args)
+    if not polls:
+        raise AnalysisError("zmq._loop: the timed poll() call was not found")
+    for n in polls:
+        call = next(x for x in ast.walk(n.ast) if isinstance(x, ast.Call) and isinstance(x.func, ast.Attribute) and x.func.attr == "poll" and x.args)
+        a = call.args[0]
+        rr.inst(norm(call, 50), True, {"poll": norm(call, 60)})
+        if not (isinstance(a, ast.Call) and callee_name(a) == "ceil"):
+            rr.add(finding("BOUND", lp, call, f"`{norm(call, 60)}` hands poll() a float number of milliseconds, which it truncates: up to a millisecond of every wait is skipped and the alarm callback runs before its due time", construct="poll timeout not rounded up"))
+        guards = [t for t in cfg.nodes if t.kind == "test" and "sockets" in ast.unparse(t.ast) and n not in ExcEngine._reach_without_edge(cfg, t, "T")]
+        sleeps = nodes_where(cfg, lambda x: isinstance(x, ast.Call) and ast.unparse(x.func) == "time.sleep")
+        if not guards or not sleeps:
+            rr.add(finding("BOUND", lp, call, "the timed poll() is not guarded by a test that sockets are registered (with a sleep for the empty case): a Poller without sockets returns at once, so with no watch installed every alarm fires immediately", construct="empty poller not handled"))
+    return rr
+
+
 def run(ctx: Ctx):
-    return [rule_wrap(ctx), rule_snap(ctx), rule_idle_arming(ctx), rule_remove_returns(ctx), rule_select_zmq(ctx), rule_trio_checkpoint(ctx), rule_presence(ctx), rule_handle_unique(ctx), rule_twisted_idle_flag(ctx), rule_idle_removed(ctx), rule_batch_dispatch(ctx), rule_doread_result(ctx)]
+    return [rule_wrap(ctx), rule_snap(ctx), rule_idle_arming(ctx), rule_remove_returns(ctx), rule_select_zmq(ctx), rule_trio_checkpoint(ctx), rule_presence(ctx), rule_handle_unique(ctx), rule_twisted_idle_flag(ctx), rule_idle_removed(ctx), rule_batch_dispatch(ctx), rule_doread_result(ctx), rule_zmq_wait(ctx)]
 
 
 from ..mutants import Mut  # noqa: E402
@@ -527,6 +553,7 @@ from ..mutants import Mut  # noqa: E402
 _S = "urwid/event_loop/select_loop.py"
 _A = "urwid/event_loop/asyncio_loop.py"
 MUTANTS = [
+    Mut("zmq-poll-timeout-truncated", "urwid/event_loop/zmq_loop.py", "ZMQEventLoop._loop", "self._poller.poll(math.ceil(timeout * 1000))", "self._poller.poll(timeout * 1000)", "BOUND|event_loop.zmq_loop.ZMQEventLoop._loop"),
     Mut("twisted-doread-returns-result", "urwid/event_loop/twisted_loop.py", "_TwistedInputDescriptor.doRead", "        self.cb()\n", "        return self.cb()\n", "WRAP|event_loop.twisted_loop._TwistedInputDescriptor.doRead"),
     Mut("select-run-suppresses-eintr", "urwid/event_loop/select_loop.py", "SelectEventLoop.run", "            while True:\n                self._loop()", "            while True:\n                with contextlib.suppress(InterruptedError):\n                    self._loop()", "WRAP|event_loop.select_loop.SelectEventLoop.run"),
     Mut("select-batch-calls-removed-watch", "urwid/event_loop/select_loop.py", "SelectEventLoop._loop", "            if self._watch_files.get(record.fd) is record.data:\n                record.data()\n                self._did_something = True", "            record.data()\n            self._did_something = True", "SNAP|event_loop.select_loop.SelectEventLoop._loop"),
